@@ -13,7 +13,8 @@ def tables(K, wide=False):
     amount = t_float((-1000.0, 1000.0)) if wide else t_float((-10.0, 50.0))
     return [
         dict(name="users", size=[0, K], fields=[f("id", t_int((0, 5)), "PrimaryKey"), f("age", t_float((0.0, 100.0))), f("city", t_int((1, 1), (2, 2), (3, 3)))]),
-        dict(name="orders", size=[0, K], fields=[f("id", t_int((0, 9)), "PrimaryKey"), f("user_id", t_int((0, 5))), f("amount", amount), f("kind", t_int((1, 1), (2, 2))), f("qty", t_opt(t_int((0, 7)))), f("bal", t_float((-100.0, 10.0)))]),
+        dict(name="orders", size=[0, K], fields=[f("id", t_int((0, 9)), "PrimaryKey"), f("user_id", t_int((0, 5))), f("amount", amount), f("kind", t_int((1, 1), (2, 2))), f("qty", t_opt(t_int((0, 7)))), f("bal", t_float((-100.0, 10.0))),
+                                                  f("tag", t_opt(t_int((0, 9))), "Unique")]),
         dict(name="items", size=[0, K], fields=[f("id", t_int((0, 20)), "PrimaryKey"), f("order_id", t_int((0, 9))), f("price", t_float((0.0, 20.0)))]),
         dict(name="pub", size=[0, K], fields=[f("k", t_int((1, 1), (2, 2), (3, 3))), f("label", t_float((0.0, 1.0)))]),
     ]
